@@ -13,7 +13,7 @@ RULE = 'scripts rich in SetEvaluationLimits (0,1,2,None, new), terminations (nev
 TRUSTED = SC.TRUSTED
 ASSUMPTIONS = SC.ASSUMPTIONS
 META = dict(technique='Coq proof (Step/Terminated/SetEvaluationLimits state machine, all algorithms and states) + trace correspondence by vm_compute',
-            level_text="Theorems: Terminated's verdict is true of the state; Step begins no iteration when stopped (no evaluation, no record) and only begins one strictly below both limits with no exit request and false termination; Step's message is true of the returned state; new=True limits are relative, others absolute; Solve returns only on a stop message; Solve always returns (C05_solve_terminates: any algorithm whose iteration logs a record stops within generation limit + 3 - len(history) Steps once limits are absolute; premises discharged for both DE solvers). Correspondence compares messages and counters after every op over limit pairs incl. 0/1/None.",
+            level_text="Theorems: Terminated's verdict is true of the state; Step begins no iteration when stopped (no evaluation, no record) and only begins one strictly below both limits with no exit request and false termination; Step's message is true of the returned state; new=True limits are relative, others absolute; Solve returns only on a stop message; Solve always returns (C05_solve_terminates: any algorithm whose iteration logs a record stops within generation limit + 3 - len(history) Steps once limits are absolute; premises discharged for both DE solvers, for Nelder-Mead from every non-empty simplex and for Powell whenever the extrapolated point is given; with a generation limit of 0 the first Step already reports the stop, for every algorithm). Correspondence compares messages and counters after every op over limit pairs incl. 0/1/None.",
             level_note='Trusted: Coq kernel+VM; harness (generators, instrumentation of /repo from outside, printers, oracles). User cost/constraints/penalty, DE trial vectors, Nelder-Mead candidate points, argsort permutation and post-decoration populations are oracle inputs (recorded in the correspondence, universally quantified in theorems). Powell: line-search probes and the returned index are oracle inputs. Tight / clip=True range modes: the composite constraints.and_(constraints, bounds) is a recorded table. Not in the machine model (oracle only): ensembles, clip=False ranges. No NaN energies.',
             design_ref="5/C05")
 
